@@ -152,6 +152,20 @@ def anchors(ctx, e, contrib):
 def run_net(case, ctx):
     rng = ctx.rng
     scen = P.build_scenario(rng, case['flavour'], ctx, topo_kw={'lumped': True, 'per_freq_loss': True, 'dispersion_variants': True, 'dup_lumped': True})
+    # the fibres of the network carry the values stated at element level in the topology document (whatever they are,
+    # zero included), the library values otherwise
+    doc = {e['uid']: e for e in scen['b']['tj']['elements'] if e['type'] in ('Fiber', 'RamanFiber')}
+    for n in scen['network'].nodes():
+        o = doc.get(n.uid.split('_(')[0])
+        if o is None or not hasattr(n.params, 'pmd_coef'):
+            continue
+        stated = o.get('params', {}).get('pmd_coef')
+        if stated is not None:
+            ctx.count('element_level_pmd_checks')
+            if abs(n.params.pmd_coef - stated) > 1e-30:
+                ctx.violation('element-level-value', f'{n.uid}: the topology states pmd_coef = {stated}, the fibre of the '
+                              f'network has {n.params.pmd_coef}')
+                return
     for job in scen['jobs']:
         try:
             p, si, events, ops = W.propagate_copy(job['path'], job['req'], scen['equipment'])
